@@ -441,17 +441,28 @@ Proof.
   rewrite Forall_forall in *. intros y Hy. apply filter_In in Hy. destruct Hy; auto.
 Qed.
 
+(* the unfolding is used through this equation: converting prefix_set against its
+   129-fold filter makes the kernel explore both branches of every test *)
+Lemma prefix_set_unfold : forall p f,
+  prefix_set p f = filter (fun i => existsb (fun n => p (nl_net n) && (s_len (nl_net n) =? i)) (f_nets f)) (desc_from 128).
+Proof. intros. unfold prefix_set. reflexivity. Qed.
+
 Lemma prefix_set_sorted : forall p f, StronglySorted (fun x y => y < x) (prefix_set p f).
-Proof. intros. unfold prefix_set. apply filter_sorted. apply desc_from_sorted. Qed.
+Proof. intros. rewrite prefix_set_unfold. apply filter_sorted. apply desc_from_sorted. Qed.
+
+Lemma n128 : N.of_nat 128 = 128. Proof. reflexivity. Qed.
 
 Lemma prefix_set_le : forall p f mk, In mk (prefix_set p f) -> mk <= 128.
-Proof. intros p f mk H. unfold prefix_set in H. apply filter_In in H. destruct H as [H _]. apply in_desc_from in H. exact H. Qed.
+Proof.
+  intros p f mk H. rewrite prefix_set_unfold in H. apply filter_In in H. destruct H as [H _].
+  apply in_desc_from in H. rewrite n128 in H. exact H.
+Qed.
 
 Lemma prefix_set_in : forall p f n, In n (f_nets f) -> p (nl_net n) = true -> s_len (nl_net n) <= 128 ->
   In (s_len (nl_net n)) (prefix_set p f).
 Proof.
-  intros p f n Hn Hp Hl. unfold prefix_set. apply filter_In. split.
-  - apply in_desc_from. exact Hl.
+  intros p f n Hn Hp Hl. rewrite prefix_set_unfold. apply filter_In. split.
+  - apply in_desc_from. rewrite n128. exact Hl.
   - apply existsb_exists. exists n. split; auto. rewrite Hp, N.eqb_refl. reflexivity.
 Qed.
 
@@ -480,17 +491,18 @@ Proof.
       rewrite Bool.andb_false_r. rewrite N.add_0_r, N.mod_mod by discriminate. apply N.mod_small. lia.
     - assert (E : (32 <? ones) = false) by (apply N.ltb_ge; lia). rewrite E, H2. cbn [andb N.eqb Pos.eqb].
       rewrite (N.mod_small ones 256) by lia. rewrite N.mod_small by lia. lia. }
-  rewrite Emax. cbn [c_isv4 c_ip c_addr].
+  cbv zeta. rewrite Emax. cbn [c_isv4 c_ip c_addr].
   set (isv4 := is_v4 a && (96 <=? plen)).
   set (S := nets_of f m) in *.
   (* the list of prefix lengths that is read *)
+  match goal with |- context [get db ?k] => set (bk := k) end.
   assert (Hlist : exists masks,
-            get db (if sep then if isv4 then [0; 52] else [0; 54] else [0; 47]) = Some masks /\
+            get db bk = Some masks /\
             StronglySorted (fun x y => y < x) masks /\ (forall mk, In mk masks -> mk <= 128) /\
             (forall t, In t S -> elig isv4 plen a t -> In (s_len t) masks)).
   { assert (Hin : forall t, In t S -> exists n, In n (f_nets f) /\ nl_map n = m /\ nl_net n = t)
       by (intros t Ht; apply (nets_of_in f m); auto).
-    destruct sep; [destruct isv4 eqn:V|].
+    unfold bk. destruct sep; [destruct isv4 eqn:V|].
     - rewrite (get_prefix_set f Hk db Hdb 52) by auto. cbn [N.eqb Pos.eqb]. eexists. split; [reflexivity|].
       split; [apply prefix_set_sorted|]. split; [apply prefix_set_le|].
       intros t Ht [E1 [E2 E3]]. destruct (Hin t Ht) as [n [Hn [_ <-]]].
@@ -515,7 +527,7 @@ Proof.
       apply prefix_set_in; auto. }
   destruct Hlist as [masks [G [Hs [Hle Hall]]]]. rewrite G.
   destruct (cdb_loop_spec S wfS (fun x len => get db (net_key m x len))
-              (get_net_hit f m Hk Ha wfS db Hdb) (get_net_miss f m Hk Ha db Hdb)
+              (get_net_hit f m Ha wfS db Hdb) (get_net_miss f m Hk Ha db Hdb)
               isv4 plen a Halt masks a Hs Hle (fun _ _ => eq_refl) Hall) as [r [Er Hr]].
   rewrite Er. f_equal. apply cdb_result_lpm; auto.
 Qed.
@@ -607,8 +619,7 @@ Section MapChoiceExact.
       rewrite E0. unfold blen. rewrite Nnat.Nat2N.id.
       assert (E1 : (length l <=? length (l ++ pack_labels ls))%nat = true)
         by (apply Nat.leb_le; rewrite app_length; lia).
-      rewrite E1, skipn_app_exact. rewrite IH; auto; [|simpl in Hf; lia].
-      destruct (lookup_decl decls kind true ls); reflexivity.
+      rewrite E1, skipn_app_exact. rewrite IH; auto; try (simpl in Hf; lia).
   Qed.
 
   (* CDB: exact-name map first, else the nearest enclosing wildcard map *)
@@ -628,28 +639,32 @@ Section MapChoiceExact.
       assert (E1 : (length l <=? length (l ++ pack_labels ls))%nat = true)
         by (apply Nat.leb_le; rewrite app_length; lia).
       rewrite E1, skipn_app_exact. rewrite cdb_find_map_wild; auto.
-      + destruct (lookup_decl decls kind true ls); reflexivity.
-      + pose proof (pack_labels_length ls). cbn [length]. rewrite app_length. lia.
+      pose proof (pack_labels_length ls). cbn [length]. rewrite app_length. lia.
   Qed.
 
-  Lemma mv1_id : forall id : mapid,
-    rd_u32le (mv1 (mapid_bytes id)) = Some 2 /\ firstn 2 (skipn 4 (mv1 (mapid_bytes id))) = mapid_bytes id /\
-    length (mv1 (mapid_bytes id)) = 6%nat.
-  Proof. intros [x y]. repeat split. Qed.
+  Lemma rdb_find_first_hit : forall k ks id, get db k = Some (mv1 (mapid_bytes id)) ->
+    rdb_find_first db (k :: ks) = Ok (Some (mapid_bytes id)).
+  Proof. intros k ks [x y] H. cbn [rdb_find_first]. rewrite H. reflexivity. Qed.
+
+  Lemma rdb_find_first_miss : forall k ks, get db k = None -> rdb_find_first db (k :: ks) = rdb_find_first db ks.
+  Proof. intros k ks H. cbn [rdb_find_first]. rewrite H. reflexivity. Qed.
 
   Lemma rdb_find_first_wild : forall ls, wf_labelsb ls = true -> enc = mv1 ->
     rdb_find_first db (cand_keys [0; kind] ls false) =
     Ok (option_map mapid_bytes (match lookup_decl decls kind true ls with Some m => Some m | None => nearest_wild decls kind ls end)).
   Proof.
     induction ls as [|l ls IH]; intros W He.
-    - cbn [cand_keys rdb_find_first]. change (negb false) with true. rewrite (Hget [] true W), He.
-      destruct (lookup_decl decls kind true []) as [id|]; [|reflexivity].
-      cbn [option_map]. destruct (mv1_id id) as [R1 [R2 R3]]. rewrite R3, R1, R2. reflexivity.
-    - cbn [cand_keys rdb_find_first]. change (negb false) with true. rewrite (Hget (l :: ls) true W), He.
-      destruct (lookup_decl decls kind true (l :: ls)) as [id|] eqn:L.
-      + cbn [option_map]. destruct (mv1_id id) as [R1 [R2 R3]]. rewrite R3, R1, R2. reflexivity.
-      + cbn [option_map nearest_wild]. rewrite IH; [|apply (wf_tail l ls W)|exact He].
-        destruct (lookup_decl decls kind true ls); reflexivity.
+    - cbn [cand_keys]. change (negb false) with true.
+      pose proof (Hget [] true W) as G. rewrite He in G.
+      destruct (lookup_decl decls kind true []) as [id|]; cbn [option_map] in G.
+      + rewrite (rdb_find_first_hit _ _ id G). reflexivity.
+      + rewrite (rdb_find_first_miss _ _ G). reflexivity.
+    - cbn [cand_keys]. change (negb false) with true.
+      pose proof (Hget (l :: ls) true W) as G. rewrite He in G.
+      destruct (lookup_decl decls kind true (l :: ls)) as [id|] eqn:L; cbn [option_map] in G.
+      + rewrite (rdb_find_first_hit _ _ id G). reflexivity.
+      + rewrite (rdb_find_first_miss _ _ G). cbn [nearest_wild].
+        rewrite IH; [reflexivity|apply (wf_tail l ls W)|exact He].
   Qed.
 
   (* RocksDB v1 keys: exact-name map first, else the nearest enclosing wildcard map *)
@@ -659,15 +674,17 @@ Section MapChoiceExact.
     intros ls W He. unfold v1_find_map.
     rewrite map_keys_pack; auto; [|pose proof (pack_labels_length ls); lia].
     cbn [rbind]. unfold map_choice.
+    pose proof (Hget ls false W) as G. rewrite He in G.
     destruct ls as [|l ls].
-    - cbn [cand_keys rdb_find_first]. change (negb true) with false. rewrite (Hget [] false W), He.
-      destruct (lookup_decl decls kind false []) as [id|]; [|reflexivity].
-      cbn [option_map]. destruct (mv1_id id) as [R1 [R2 R3]]. rewrite R3, R1, R2. reflexivity.
-    - cbn [cand_keys rdb_find_first]. change (negb true) with false. rewrite (Hget (l :: ls) false W), He.
-      destruct (lookup_decl decls kind false (l :: ls)) as [id|].
-      + cbn [option_map]. destruct (mv1_id id) as [R1 [R2 R3]]. rewrite R3, R1, R2. reflexivity.
-      + cbn [option_map nearest_wild]. rewrite rdb_find_first_wild; [|apply (wf_tail l ls W)|exact He].
-        destruct (lookup_decl decls kind true ls); reflexivity.
+    - cbn [cand_keys]. change (negb true) with false.
+      destruct (lookup_decl decls kind false []) as [id|]; cbn [option_map] in G.
+      + rewrite (rdb_find_first_hit _ _ id G). reflexivity.
+      + rewrite (rdb_find_first_miss _ _ G). reflexivity.
+    - cbn [cand_keys]. change (negb true) with false.
+      destruct (lookup_decl decls kind false (l :: ls)) as [id|]; cbn [option_map] in G.
+      + rewrite (rdb_find_first_hit _ _ id G). reflexivity.
+      + rewrite (rdb_find_first_miss _ _ G). cbn [nearest_wild].
+        rewrite rdb_find_first_wild; [reflexivity|apply (wf_tail l ls W)|exact He].
   Qed.
 End MapChoiceExact.
 
